@@ -310,7 +310,7 @@ pub fn run(ctx: &mut Ctx) -> Result<(), Violation> {
     });
     ctx.stage("filter-sequences-on-one-environment-3var", true, r)?;
 
-    let cases = ctx.tier.pick(100_000, 8_000_000);
+    let cases = ctx.tier.cases(100_000, 8_000_000);
     let r = par_random(ctx, "random-api", cases, 80, |tape, st| {
         let mut t = Tape::new(tape);
         let f = gen_fun(&mut t, 8, 12);
